@@ -36,7 +36,8 @@ def body_spec(b: str):
             "octet": {"content": {"application/octet-stream": {"schema": {"type": "string", "format": "binary"}}}},
             "json|form:json": {"content": {"application/json": js, "application/x-www-form-urlencoded": fm}},
             "json|form:form": {"content": {"application/json": js, "application/x-www-form-urlencoded": fm}},
-            "vnd+json": {"content": {"application/vnd.api+json": js}}}[b]
+            "vnd+json": {"content": {"application/vnd.api+json": js}},
+            "json;param": {"content": {"application/vnd.acme+json; version=2": js}}}[b]
 
 
 def resp_spec(r: dict) -> dict:
@@ -125,7 +126,7 @@ def served_spec(how: str, status: int) -> dict:
     return {"status": status, "ctype": ctype, "body_b64": base64.b64encode(body).decode()}
 
 
-def enumerate_universe(universe: str, max_params: int, scratch_dir: Path, parts: int = 9):
+def enumerate_universe(universe: str, max_params: int, scratch_dir: Path, parts: int = 10):
     def one(part):
         cfg = tlc.write_cfg(scratch_dir / f"ep-{universe}-{part}.cfg", {"Universe": universe, "MaxParams": max_params, "EmitJson": True, "Part": part,
                                                                        "Parts": parts if universe == "request" else 1}, ["E1", "E3", "E4", "Emit"], props=["Terminates"])
